@@ -374,8 +374,9 @@ PROPS = {
                 "through available_permits; a panic or a call that does not return within 5 s is a violation; the drain at the "
                 "end of each case must return every call; non-trivial = at least two commits and a probe",
         "assumptions": [
-            "liveness is checked as 'the deterministic drain returns every call' per explored schedule; fairness of the tokio scheduler "
-            "and real-time starvation are not modelled (partial)",
+            "liveness of the commit pipeline is proved for the model (progress, bounded work, every call returns under a scheduler "
+            "that keeps choosing an enabled thread) and observed on the real pipeline as 'the deterministic drain returns every call' "
+            "per explored schedule; fairness of the tokio scheduler and real-time starvation are not modelled (partial)",
             "the write-stall wait is modelled at the level of the controller (generation reading of tokio's Notify: a Notified future "
             "created before a notify_waiters call is woken by it — trusted); that the flush / compaction / close paths call "
             "signal_work_done / signal_shutdown after every change is observed by the store-level streams of C01/C06/C15, not proved",
